@@ -1274,3 +1274,110 @@ func c16ExpressionWalkedOnce(ctx *core.Ctx, r *core.Report) {
 	r.Ob("expression-walked-once", "node.Selection.XFind", ctx.Pos(f.Pos()), ok,
 		"XFind calls resolvePath for every step of the expression although resolvePath already walks the following steps itself: an expression of three or more steps is resolved twice and fails with 'not found in xpath'")
 }
+
+// c18MapHandlerIndexDropped: the map-backed list handler of nodeutil.Node walks
+// the map in the order of a sorted copy of its keys (mapAsList.index). Every
+// method that changes the map (SetMapIndex) drops that copy before it returns,
+// and a walk that starts over (First) builds it again — otherwise a later walk
+// through the same list node misses the new entry, or stops at a deleted key and
+// loses every entry behind it.
+func c18MapHandlerIndexDropped(ctx *core.Ctx, r *core.Report) {
+	mal := ctx.Named("nodeutil", "mapAsList")
+	if mal == nil {
+		r.Fatalf("anchor nodeutil.mapAsList not found")
+		return
+	}
+	n := 0
+	for _, f := range scopeFuncs(ctx, "nodeutil", "node_map.go") {
+		rv := f.Signature.Recv()
+		if rv == nil || core.NamedOf(rv.Type()) != mal || len(f.Params) == 0 {
+			continue
+		}
+		recv := f.Params[0]
+		for _, c := range core.CallSites(f) {
+			cal := core.StaticCallee(c)
+			if cal == nil || core.FnName(cal) != "reflect.Value.SetMapIndex" {
+				continue
+			}
+			n++
+			var drops []*ssa.Store
+			core.Instrs(f, func(_ *ssa.BasicBlock, in ssa.Instruction) {
+				st, ok := in.(*ssa.Store)
+				if !ok || !core.IsNilConst(st.Val) {
+					return
+				}
+				if fa, ok := st.Addr.(*ssa.FieldAddr); ok && fa.X == ssa.Value(recv) && core.Deref(recv.Type()).Underlying().(*types.Struct).Field(fa.Field).Name() == "index" {
+					drops = append(drops, st)
+				}
+			})
+			ok := len(drops) > 0
+			for _, ret := range core.Returns(f) {
+				if !instrDominates(c.(ssa.Instruction), ret) {
+					continue
+				}
+				dom := false
+				for _, d := range drops {
+					if instrDominates(d, ret) {
+						dom = true
+					}
+				}
+				if !dom {
+					ok = false
+				}
+			}
+			r.Ob("cache-dropped-on-mutation", core.FnName(f)+"/index", ctx.Pos(c.Pos()), ok,
+				"the map is changed here and the method can return with the handler's sorted copy of the keys still in place: a later walk through the same list node misses the inserted entry, or stops at the deleted key and loses every entry behind it")
+		}
+	}
+	r.Floor("cache-dropped-on-mutation(mapAsList)", n, 2)
+}
+
+// c11DeviateFieldsFilled: every field of a deviate statement that applyDeviation
+// reads is written somewhere by the Builder (or its add*/set* helpers): a field
+// that is only ever read means the statement it stands for cannot be written in a
+// module at all (`unique` inside a deviate was refused by Builder.Unique while
+// applyDeviation had the code to apply it).
+func c11DeviateFieldsFilled(ctx *core.Ctx, r *core.Report) {
+	n := 0
+	for _, tn := range []string{"AddDeviate", "ReplaceDeviate", "DeleteDeviate"} {
+		named := ctx.Named("meta", tn)
+		if named == nil {
+			r.Fatalf("anchor meta.%s not found", tn)
+			continue
+		}
+		st := named.Underlying().(*types.Struct)
+		read, written := map[string]bool{}, map[string]bool{}
+		for _, f := range scopeFuncs(ctx, "meta") {
+			isApply := strings.HasSuffix(core.FnName(f), "resolver.applyDeviation") || strings.HasSuffix(core.FnName(f), "resolver.checkDeviationTarget")
+			core.Instrs(f, func(_ *ssa.BasicBlock, in ssa.Instruction) {
+				fa, ok := in.(*ssa.FieldAddr)
+				if !ok || core.NamedOf(fa.X.Type()) != named {
+					return
+				}
+				name := st.Field(fa.Field).Name()
+				for _, ref := range *fa.Referrers() {
+					switch y := ref.(type) {
+					case *ssa.Store:
+						if y.Addr == ssa.Value(fa) {
+							written[name] = true
+						}
+					case *ssa.UnOp:
+						if isApply {
+							read[name] = true
+						}
+					}
+				}
+			})
+		}
+		for i := 0; i < st.NumFields(); i++ {
+			name := st.Field(i).Name()
+			if !read[name] {
+				continue
+			}
+			n++
+			r.Ob("deviation-field-coverage", "meta."+tn+"."+name+"/filled", ctx.Pos(st.Field(i).Pos()), written[name],
+				"applying a deviation reads "+tn+"."+name+" but nothing ever stores it: the corresponding statement cannot be written inside that deviate (the Builder refuses or drops it), so the deviation cannot be expressed")
+		}
+	}
+	r.Floor("deviation-field-coverage(filled)", n, 12)
+}
